@@ -38,7 +38,9 @@ Blocks1(z) ==
            NBody("ctx", <<P5, NPush(VD(6))>>), NBody("ctx", <<NPush(VX(<<10>>)), NPush(VX(<<11>>)), NPush(VX(<<12, 13>>))>>),
            NBody("ctx", <<P5, DUPOP, NPush(VD(1)), NB1(14, 2, "d")>>) }
     \cup { NVset(<<107>>, 2), NVvals(<<107, 50>>, <<VD(5), VX(<<1, 2>>)>>), NVar("vload", <<107>>),
-           NVar("vsize", <<107>>) }
+           NVar("vsize", <<107>>),
+           \* names keep their letter case in all three forms
+           NVset(<<75, 107>>, 1), NVar("vload", <<75, 107>>), NVar("vsize", <<75, 107>>), NVar("vsize", <<109, 76>>) }
 \* depth 2: a block whose body contains a depth-1 block
 Inner(z) == { NIf(<<TRUEOP>>, <<>>, st) : st \in {"brace", "end"} }
             \cup { NIfe(<<TRUEOP>>, <<P5>>, st) : st \in {"brace", "end"} }
@@ -83,6 +85,8 @@ OperandProgs(z) ==
     \cup { <<NWc(k, n)>> : k \in {VX(<<>>), VX(<<107>>), VX(Rep(255, 2)), VS(<<107, 49>>)}, n \in {0, 1, 255} }
     \cup { <<NP("p1", Rep(n, 7), st)>> : n \in {0, 1, 2, 255}, st \in {"sz"} }
     \cup { <<NP("p1", Rep(n, 7), "nosz"), TRUEOP>> : n \in {1, 2, 255} }
+    \* the one-symbol form followed by an instruction whose alias starts with a value-prefix letter (s, d, x, f)
+    \cup { <<NP(k, <<1, 2>>, "nosz"), NOp0(op)>> : k \in {"p1", "p2"}, op \in {0, 8, 30, 29, 63} }
     \cup { <<NP("p2", Rep(n, 7), "sz")>> : n \in {0, 1, 255, 256, 300} }
     \cup { <<NDef(h, <<TRUEOP>>, st)>> : h \in {0, 1, 127, 128, 255}, st \in {"brace", "dval", "xval"} }
     \cup { <<NVset(<<107>>, n)>> : n \in {0, 1, 255} }
